@@ -748,6 +748,38 @@ func ruleBatchDelivery(c *Ctx, r *R) {
 				if errNil && strings.HasSuffix(e, "End") {
 					retEnd = true
 				}
+				// the choice lives in a helper of the stream (`return nil, s.endErr()`): err if non-nil, End otherwise
+				if hc, ok := ret.Results[1].(*ssa.Call); ok {
+					if cal := staticCallee(&hc.Call); cal != nil && cal.Blocks != nil && rootFn(origin(cal)).Pkg == rootFn(fn).Pkg {
+						hErr, hEnd := false, false
+						for _, hb := range origin(cal).Blocks {
+							hr, ok := hb.Instrs[len(hb.Instrs)-1].(*ssa.Return)
+							if !ok || len(hr.Results) != 1 {
+								continue
+							}
+							nn, nl := false, false
+							for _, g := range guardsOf(hb) {
+								if cf, ok := g.asCmp(); ok && strings.HasSuffix(path(cf.x), ".err") && isNilConst(cf.y) {
+									if cf.op == token.NEQ {
+										nn = true
+									} else if cf.op == token.EQL {
+										nl = true
+									}
+								}
+							}
+							he := path(hr.Results[0])
+							if nn && strings.HasSuffix(he, ".err") {
+								hErr = true
+							}
+							if nl && strings.HasSuffix(he, "End") {
+								hEnd = true
+							}
+						}
+						if hErr && hEnd {
+							retErr, retEnd = true, true
+						}
+					}
+				}
 			}
 		}
 		return retErr && retEnd
@@ -872,11 +904,45 @@ func onlyTimeNow(v ssa.Value, seen map[ssa.Value]bool) bool {
 
 // madeChans: the make(chan) sites a channel value can come from (through locals, captured variables and the results of
 // in-package helpers); nil if any source is something else.
-func madeChans(v ssa.Value) map[*ssa.MakeChan]bool {
+func madeChans(v ssa.Value) map[*ssa.MakeChan]bool { return madeChansD(v, 0) }
+
+func madeChansD(v ssa.Value, depth int) map[*ssa.MakeChan]bool {
 	out := map[*ssa.MakeChan]bool{}
 	for _, lf := range valueLeaves(v, nil, 0) {
 		mk, ok := lf.v.(*ssa.MakeChan)
 		if !ok {
+			// a channel parameter of an unexported top-level helper (the body of a goroutine moved into a named function):
+			// what every call site hands in
+			if p, isP := lf.v.(*ssa.Parameter); isP && depth < 3 && curCtx != nil && p.Parent() != nil && p.Parent().Parent() == nil && !token.IsExported(p.Parent().Name()) {
+				fn := p.Parent()
+				pi := -1
+				for i, q := range fn.Params {
+					if q == p {
+						pi = i
+					}
+				}
+				sites := callCommonsOf(curCtx, fn)
+				if pi >= 0 && len(sites) > 0 {
+					okAll := true
+					for _, cc := range sites {
+						if pi >= len(cc.Args) {
+							okAll = false
+							break
+						}
+						sub := madeChansD(cc.Args[pi], depth+1)
+						if sub == nil {
+							okAll = false
+							break
+						}
+						for k := range sub {
+							out[k] = true
+						}
+					}
+					if okAll {
+						continue
+					}
+				}
+			}
 			return nil
 		}
 		out[mk] = true
